@@ -97,6 +97,63 @@ def native_batch_independence(name, rows, field):
     return bad
 
 
+def native_trimesh(seed, quick=True):
+    """real library: several TriangularMesh sources in one call vs each alone; adversarial mesh families
+    (same face count, same coordinate sum, shared first facets, different sizes). returns list of messages"""
+    import itertools
+    import warnings
+
+    import magpylib as magpy
+
+    warnings.simplefilter("ignore")
+    rng = np.random.default_rng(seed)
+
+    def hull(pts, pol=(0.1, 0.2, 0.3)):
+        return magpy.magnet.TriangularMesh.from_ConvexHull(points=np.array(pts, dtype=float), polarization=pol)
+
+    def cube(a):
+        return hull([(x, y, z) for x in (-a, a) for y in (-a, a) for z in (-a, a)])
+
+    def pyramid(h):
+        return hull([(0, 0, 0), (1, 0, 0), (0, 1, 0), (1, 1, 0), (0.5, 0.5, h)])
+
+    def tetra(h):
+        v = np.array([(0, 0, 0), (1, 0, 0), (0, 1, 0), (0.3, 0.3, h)], dtype=float)
+        return magpy.magnet.TriangularMesh(vertices=v, faces=[(0, 2, 1), (0, 1, 3), (1, 2, 3), (0, 3, 2)], polarization=(0.1, 0.2, 0.3))
+
+    fams = {
+        "tetrahedra with an identical first facet": [tetra(0.4), tetra(2.0), tetra(1.0)],
+        "concentric cubes (same facet count, same coordinate sum)": [cube(0.5), cube(2.0), cube(1.0)],
+        "pyramids on one base (shared facets)": [pyramid(0.5), pyramid(2.0), pyramid(1.0)],
+        "cube + pyramid (different facet counts)": [cube(0.5), pyramid(2.0), cube(2.0)],
+    }
+    obs = np.array([(0.3, 0.3, 0.3), (0.3, 0.3, 0.8), (1.2, 0.1, 0.3), (0.5, 0.5, 1.4), (5.0, 5.0, 5.0), (-0.3, -0.2, 0.2)])
+    bad = []
+    for name, meshes in fams.items():
+        alone = {id(m): {f: getattr(magpy, "get" + f)(m, obs) for f in "BHJM"} for m in meshes}
+        orders = list(itertools.permutations(range(len(meshes)), 2)) + list(itertools.permutations(range(len(meshes)), 3))
+        for order in orders:
+            srcs = [meshes[i] for i in order]
+            for o_sel in (slice(None), slice(1, 2)):
+                for f in "BHJM":
+                    got = getattr(magpy, "get" + f)(srcs, obs[o_sel], squeeze=False)[:, 0, 0]
+                    for l, m in enumerate(srcs):
+                        exp = alone[id(m)][f][o_sel].reshape(got[l].shape)
+                        if not np.allclose(got[l], exp, rtol=1e-9, atol=1e-14):
+                            bad.append(f"{name}: get{f} of sources {list(order)} with {len(np.atleast_2d(obs[o_sel]))} observer(s): entry {l} differs from that source alone")
+                            break
+            if quick and len(bad) > 3:
+                return bad
+    return bad
+
+
+REPLAY_TM = """import sys
+from checks.c06 import native_trimesh
+bad = native_trimesh({seed})
+for b in bad[:6]: print(b)
+sys.exit(1 if bad else 0)
+"""
+
 REPLAY = """import sys, json
 from checks.c06 import native_batch_independence
 name, rows, field = {name!r}, json.loads({rows!r}), {field!r}
@@ -124,9 +181,16 @@ def main(tier, seed):
         rep.notes.append("trimesh loop obligations not built")
     fails = run_parallel(rep, tasks)
     rng = np.random.default_rng(seed + 7)
+    bad_tm = native_trimesh(seed)
+    rep.standin("native: several TriangularMesh sources in one call == each source alone (adversarial mesh families, all orders, B/H/J/M)",
+                "4 families x all ordered pairs/triples x {6 observers, 1 observer}", 4 * 12 * 2 * 4, 4 * 12 * 2, "concentric cubes, shared-base pyramids, mixed facet counts",
+                [dict(family="concentric cubes", order=[0, 1])], failures=len(bad_tm), exhaustive=True)
     for f in fails:
         nm = f["wrapper"]
         found = None
+        if nm == "TriangularMesh" and bad_tm:
+            rep.violation(f["name"], {"why": f["why"], "native_result": bad_tm[0], "script": REPLAY_TM.format(seed=seed)})
+            continue
         if nm in WRAPPERS:
             cands = []
             if f.get("row"):
@@ -145,6 +209,8 @@ def main(tier, seed):
                                       "script": REPLAY.format(name=nm, rows=json.dumps(found[0]), field=f.get("field", "B"))})
         else:
             rep.violation(f["name"], {"why": f["why"], "solver_output": json.dumps(f.get("row"))}, found_input=False)
+    if bad_tm and not any(f["wrapper"] == "TriangularMesh" for f in fails):
+        rep.violation("standin.trimesh-sources-in-one-call", {"native_result": bad_tm[0], "script": REPLAY_TM.format(seed=seed)})
     # bounded stand-in: vectorised == element-wise natively
     nrows = 60 if tier == "quick" else 600
     total = nbad = 0
